@@ -853,6 +853,21 @@ func runC13c(sc C13cSc, c *kit.Case) *kit.Violation {
 		if got, err := wrapper.Get(target); err == nil {
 			return kit.Violatef("C13:expired-item-served", "%s still served through the store API: seq=%d", what, got.Seq)
 		}
+		// the expiry path must leave the store usable: ask again
+		again := make(chan error, 1)
+		simnet.Go(func() { _, err := wrapper.Get(target); again <- err })
+		select {
+		case err := <-again:
+			if err == nil {
+				return kit.Violatef("C13:expired-item-served", "%s served on the second get", what)
+			}
+		case <-time.After(10 * time.Second):
+			if ok, _ := sv.C.AllBlocked(); ok {
+				return kit.Violatef("C13:store-wedged-after-expiry", "%s: a second get through the store API never returned (every goroutine blocked)", what)
+			}
+			c.Inconclusive = "second get after expiry still running"
+			return nil
+		}
 	case "wire":
 		from := &net.UDPAddr{IP: net.IP{7, 7, 7, 9}, Port: 7779}
 		outs, ok := sv.exchange(c, from, mkQuery([]byte("ge"), "get", mkArgs([20]byte{5, 7}, BKV{K: "target", V: bs(target[:])})), true)
